@@ -24,13 +24,8 @@ A = "allocator::Allocator::"
 
 
 def marker_tests(f):
-    out = set()
-    for b in f.reachable_blocks():
-        if f.term(b)["k"] == "switch":
-            n = compare_norm(f.switch_cond(b, deep=False))
-            if n and len(n[0]) == 1 and "b[0]" in list(n[0])[0]:
-                out.add((n[2], abs(n[1])))
-    return out
+    """tests on the first byte read from the stream (by role: element 0 of a one-byte buffer / a u8 parameter)"""
+    return f.byte_tests()
 
 
 def loop_norms(f):
